@@ -647,6 +647,26 @@ func (e *env) probeFixed() (string, error) {
 	if zed.IsUnionType(t) {
 		fixed = append(fixed, `"map"`)
 	}
+	// `1 {b:1} {c:1}`: are the records shaped into the fused union?
+	{
+		var vals []zed.Value
+		n := 0
+		for _, t := range []*term{prim("int64"), {K: "rec", Fs: []field{{N: "b", T: *prim("int64")}}}, {K: "rec", Fs: []field{{N: "c", T: *prim("int64")}}}} {
+			typ, err := toType(zctx, t)
+			if err != nil {
+				return "", err
+			}
+			v, _ := (&gen{counter: &n}).make(typ)
+			vals = append(vals, v)
+		}
+		out, err := e.runFlow(zctx, "fuse", vals, e.defMem, false)
+		if err != nil || len(out) != 3 {
+			return "", fmt.Errorf("probe: fuse: %v %v", out, err)
+		}
+		if out[0].Type() == out[1].Type() && out[1].Type() == out[2].Type() {
+			fixed = append(fixed, `"unionhome"`)
+		}
+	}
 	e.c.Set("spec_defect_paths_repaired_in_tree", fixed)
 	if len(fixed) > 0 {
 		e.c.Logf("probe: the tree under test no longer has the defect path(s) %s; FuseMerge.tla is checked with Fixed = {%s}", strings.Join(fixed, ","), strings.Join(fixed, ","))
@@ -665,6 +685,9 @@ func (e *env) runTLC() ([]typeCase, []fuserCase, error) {
 	}
 	// several JVMs run side by side: keep each one's GC pool small; the runs are short, C1 code is fast enough and compiles sooner
 	os.Setenv("JAVA_TOOL_OPTIONS", "-XX:ParallelGCThreads=2 -XX:TieredStopAtLevel=1")
+	if n := os.Getenv("C20_CFG"); n != "" { // development: e.g. FuseMerge.tiny.cfg
+		cfgName = n
+	}
 	cfgBytes, err := os.ReadFile(filepath.Join(core.VerifDir, "specs", "cfg", cfgName))
 	if err != nil {
 		return nil, nil, err
